@@ -25,8 +25,9 @@ EPS = 2.0 ** -52
 DRIVER = 'drv_loop_ocp'
 MODULES = ['Alpaqa.Props.C03_Ocp', 'Alpaqa.Props.C05_Ocp', 'Alpaqa.Props.C06_Ocp', 'Alpaqa.Props.C19_Ocp',
            'Alpaqa.Props.C13']
-EXTRA_SOURCES = ['Alpaqa/Model/Ocp.lean', 'Alpaqa/Proofs/OcpInv.lean', 'Alpaqa/Gen/C05.lean',
-                 'Alpaqa/Gen/C06.lean', 'Driver/LoopOcp.lean', 'Driver/ReplayCommon.lean']
+EXTRA_SOURCES = ['Alpaqa/Model/Ocp.lean', 'Alpaqa/Proofs/OcpInv.lean', 'Alpaqa/Proofs/OcpLoop.lean',
+                 'Alpaqa/Proofs/OcpLs.lean', 'Alpaqa/Gen/C05.lean', 'Alpaqa/Gen/C06.lean',
+                 'Driver/LoopOcp.lean', 'Driver/ReplayCommon.lean']
 GEN_SCRIPTS = ['gen_c05.py', 'gen_c06.py']
 
 LIB_SUBSET = ['inner/panoc-ocp.cpp', 'problem/ocproblem.cpp', 'problem/ocproblem-counters.cpp',
@@ -201,6 +202,23 @@ def sweep_ops(rng, exe, n_problems, **over):
         for t in range(1, Tk + 1):
             o = Op(base); o['stopat'] = str(t)
             ops.append(o.line())
+    return ops
+
+
+def tie_ops(rng, exe, n):
+    """Runs whose tolerance equals the ε reported at some loop head exactly (tie on `ε <= tolerance`)."""
+    ops = []
+    base = [gen_run(rng, stop=False, scenario='plain', oot=0, trace=0, tol=f2h(1e-300),
+                    crit=rng.choice([2, 3, 4, 5, 6, 7]), maxiter=rng.choice([3, 5, 20])) for _ in range(n)]
+    out, rc, err = C.run_lines(exe, [b.line() for b in base])
+    for b, h in zip(base, out):
+        r = parse_out(h)
+        eps = [cb['eps'] for cb in r['cbs'] if math.isfinite(cb['eps']) and cb['eps'] > 0]
+        if not eps:
+            continue
+        b.pop('trace')
+        o = Op(b); o['tol'] = f2h(rng.choice(eps))
+        ops.append(o.line())
     return ops
 
 
